@@ -9,7 +9,8 @@ RULE = ("programs: variant kinds x 0..3 tuple fields (pairwise distinct types AN
         "write through every &mut is re-read from the enum). Method names come from the model's snakify, so a misnamed or missing "
         "method is a compile failure attributed to the enum. non-trivial: all; distinct = (enum, value, method).")
 
-IDENTS = gen.IDENTS + ["Ipv4Addr6", "Sha256Sum512", "A1B2C3", "X", "Y2", "HTTP2", "Utf8String", "B64", "R2D2", "Level99Boss", "Two__Under", "_Lead", "Trail_", "a", "b2c"]
+IDENTS = gen.IDENTS + ["Ipv4Addr6", "Sha256Sum512", "A1B2C3", "X", "Y2", "HTTP2", "Utf8String", "B64", "R2D2", "Level99Boss", "Two__Under", "_Lead", "Trail_", "a", "b2c",
+                      "IsReady", "Is2Fa", "Is", "TryAsFoo", "AsRef", "TryInto", "Ref", "Mut", "TryAs", "IsIs"]
 FIELD_TYPES = ["u8", "i32", "bool", "String", "OptU8", "VecU8", "char", "i64", "u16", "Tup"]
 
 
@@ -128,6 +129,8 @@ def check(run):
             while s is None:
                 s = build(r0, "E%d" % k)
             s.variants = s.variants[:4] if len(s.variants) >= 4 else s.variants
+            if "Default" in s.std_derives and not any("#[default]" in v.extra_attrs for v in s.variants):
+                s.std_derives = [d for d in s.std_derives if d != "Default"]
             for j, v in enumerate(s.variants):
                 v.disabled = (j == pos)
             specs.append(s)
